@@ -34,6 +34,8 @@ PROPS["C18"] = dict(
     explanation="Bounded model checking (Kani/CBMC) of the real protocol::validate through the real Context::new over a fully symbolic circuit description and argument set.",
     outside="parties<=3, input_regs[p]<=2, <=3 instructions, max_reg_count<=3, <=2 output regs, |inputs|<=3, |p_out|<=3; all indices full width. 'before sending any message' rests on _mpc calling validate before its first await (checked textually, see assumptions).",
     assumptions=[FMT, TRACING],
+    level_text="Bounded model checking: for every circuit description and argument tuple inside the stated size bounds (all index values full width) CBMC proves that validate() cannot panic and that Ok implies every documented argument condition; counterexamples are replayed natively before being reported.",
+    level_note="Trusted: Kani's MIR->goto translation and CBMC; bounds on sizes (<=3 parties/instructions, <=2 outputs); format!() stubbed; logging no-op. Whether mpc() sends nothing before validate() is a textual check of _mpc.",
     harnesses=[
         H(
             "protocol",
@@ -45,3 +47,29 @@ PROPS["C18"] = dict(
         ),
     ],
 )
+
+
+# ---------------------------------------------------------------------------------------------
+# Properties not claimed, with the one-line reason (DESIGN.md §3). Entries for claimed
+# properties are ignored by gen_manifest.
+NOT_APPLICABLE = {
+    "C01": "under construction in this session (batch/chunk agreement harnesses)",
+    "C02": "every acceptance decision is inline in async functions that Kani 0.68 cannot compile (async closures) and that exhaust memory after normalisation; quantifies over adversarial message sequences through OT, hashing and AEAD",
+    "C03": "same code as C02; the AEAD-tag obligation needs symbolic ChaCha20-Poly1305",
+    "C04": "detection branches live in async preprocessing functions; commit-before-reveal and challenge-after-data are orderings over message histories of concurrent parties, and BLAKE3/ChaCha20 would have to be symbolic",
+    "C05": "the whole property is the send pattern of output(), which contains async closures (Kani ICE) and did not finish after manual normalisation",
+    "C06": "a statement about the distribution of the transcript over coin tosses and freshness across executions; a solver treats the RNG as unconstrained environment and cannot express balance or reuse",
+    "C07": "secrecy against pooled adversarial views over whole runs (information flow through OT/hash/AEAD outputs)",
+    "C08": "under construction in this session (decoder harnesses)",
+    "C09": "under construction in this session (encoding-length harnesses)",
+    "C10": "under construction in this session (share algebra harnesses)",
+    "C11": "under construction in this session (packing / byte-order harnesses)",
+    "C12": "a property of interleavings of several parties' futures; Kani has no concurrency model and the join/scatter layer alone exhausts memory",
+    "C13": "polytune-server-core is a tokio actor (mpsc/oneshot/Notify/Semaphore, spawn, Garble compiler); Kani models neither tokio's channels in feasible size nor any interleaving",
+    "C14": "same actor code; the handlers cannot be executed symbolically (tokio send().await on both paths)",
+    "C15": "same actor code; cancellation races are interleavings of tokio tasks",
+    "C16": "same actor code; needs the Garble compiler and RPC delivery orders",
+    "C17": "same actor code; semaphore permits across tokio tasks and failure injection into RPCs",
+    "C19": "the file variant is tempfile + BufWriter/BufReader over one shared OS file offset with seek in Drop; Kani has no file-system model",
+    "C20": "under construction in this session (GF(2) arithmetic and transposition harnesses)",
+}
